@@ -136,6 +136,19 @@ def r9(run, fx):
     ]
 
 
+def _indexes_fixed_array(call, f):
+    """is the Index::index call applied to a fixed-size array (`[T; N]`), not to a Vec / slice of run-time length?"""
+    import re
+    try:
+        body = M.Body(f)
+        a0 = call.args[0]
+        l = M.op_local(a0)
+        ty = body.local_ty(l) if l is not None else (a0.get("k") or {}).get("ty", "")
+    except Exception:
+        return False
+    return bool(re.match(r"^&?(mut )?\[.*; \d+\]$", (ty or "").strip()))
+
+
 def _const_range_of_array(f, line):
     """is every index expression on that line `ARRAY[a..b]` with literal bounds inside the fixed length of the array type?"""
     import re
@@ -169,6 +182,12 @@ def _const_range_of_array(f, line):
 def main(tier):
     run, fx = start("C03", tier)
     rs = fx["temporal_rs"]
+    # debug assertions that were shown to fire (open known findings, with a witness) stay reported
+    try:
+        with open(os.path.join(VERIF, "known_findings.json")) as fh:
+            open_findings = {k["key"] for k in json.load(fh)["findings"] if k.get("status") == "open"}
+    except (OSError, ValueError, KeyError):
+        open_findings = set()
     r9_sites = {}
     for x in intervals.results(fx)["sites"]:
         r9_sites.setdefault(x["fn"], []).append(x)
@@ -213,15 +232,28 @@ def main(tier):
                           "index into a list without a dominating length check in %s" % f.name, loc)
                 continue
         ent = review.get(key)
-        if ent is None and kind == "bounds":
-            # an unreviewed `a[i]`: discharged when the interval analysis (R9) proves the index below the length in every
-            # context of this function
+        if ent is None and (kind == "bounds" or (kind == "index" and _indexes_fixed_array(node, f))):
+            # an unreviewed `a[i]` / `ARRAY[a..b]` on a fixed-size array: R9 treats it like every other assertion site -
+            # proved (discharged), reported by R9 itself when a caller-controlled index can reach the length, or left
+            # unresolved (a loop counter, an index read from a table): then nothing is claimed here either
             st = [x["status"] for x in r9_sites.get(f.path, []) if x["kind"] == "bounds"]
             if st and all(v == 0 for v in st):
                 run.ok(rule, key, "index proved below the length by the interval analysis (R9) in every context", loc)
                 continue
+            if not any(v == 2 for v in st):
+                run.undecided.append({"rule": rule, "key": key, "gone": ["unreviewed index into a fixed-size array in %s" % f.path]})
+                run.ok(rule, key, "unreviewed index into a fixed-size array, not resolved by the interval analysis: not decided",
+                       loc, nontrivial=False)
+                continue
         if ent is None and kind == "index" and _const_range_of_array(f, line):
             run.ok(rule, key, "constant sub-range of a fixed-size array, inside its length", loc)
+            continue
+        if ent is None and kind.startswith("panic:debug_assert") and "%s/%s" % (rule, key) not in open_findings:
+            # a debug assertion nobody reviewed: it is absent from release builds and fires in debug builds only if its
+            # condition can be false; this inventory does not evaluate conditions, so nothing is decided (an unreviewed
+            # assert! / panic! / unwrap / expect in a function of the baseline is still reported below)
+            run.undecided.append({"rule": rule, "key": key, "gone": ["unreviewed debug_assert! in %s" % f.path]})
+            run.ok(rule, key, "unreviewed debug_assert! in %s: not decided" % f.path, loc, nontrivial=False)
             continue
         if ent is None and baseline.is_new(f.path):
             # a function that did not exist when the sites were reviewed: a helper extracted from reviewed code (its
